@@ -143,6 +143,17 @@ impl Storage {
         forall|s: Store| s != slice.store ==> final(self).backend(s) == old(self).backend(s)
     @*/
 
+    /*@ fn src/storage/mod.rs Storage::read_info
+    tags: C10 C09
+    result: r
+    requires:
+        old(self).ok(),
+        info_instruction.info_type == StoreInfoType::Size ==> info_instruction.index == 0
+    ensures:
+        // C10: a backend fault always surfaces as Err; one instruction gives exactly one info (the `expect` cannot fail)
+        final(self).backend(info_instruction.store).failed@ ==> r is Err,
+        r is Ok ==> read_result_ok(info_instruction, r->Ok_0)
+    @*/
     /*@ fn src/storage/mod.rs Storage::read_infos
     tags: C10
     result: r
